@@ -289,3 +289,88 @@ def check_const_transmute(ctx, cfg, rule="C01.T"):
     ctx.ob(rule, key, st, "union built from the parameter only under %s (required size_of A == size_of B): %s; panic exits under size mismatch: %s; union is repr(C) with two fields: %s" % (
         fstr(unions[0]["facts"]) if unions else "-", ok, okp, oku), at=b["at"], cfg=cfg)
     return st == PROVED
+
+
+# ---- "every element of the full view is handed to a sink" (used by C19.Z) -------------------------
+
+def _pure_full_iter(v, base, length):
+    return isinstance(v, tuple) and len(v) == 5 and v[0] == "V" and v[1] == "iter" and v[2] == "slice" and is_full_view(v[3], base, length)
+
+
+def visits_all(ctx, cfg, a, base, length, sink, sink_iter_res, sink_slice_res):
+    """Decide whether body `a` hands every element of the `length`-element view of `base` to the call `sink`
+    exactly through one of the recognised complete traversals:
+      A  sink(iter)     - `sink` resolved to the element-wise impl for the slice iterator, on the unadapted iterator over the full view
+      B  sink(slice)    - `sink` resolved to the element-wise impl for slices, on the full view
+      C  for_each(iter, |x| sink(x)) - unadapted iterator over the full view; the closure calls sink on its argument on every path
+      D  loop { match iter.next() { Some(x) => sink(x), None => break } } - one next() site on the unadapted iterator, every Some edge passes
+         through sink(payload) before the next next(), and the function returns only on the None edge
+    Any other payload call (adaptors, sub-slicing, split) is outside the recognised forms -> not proved. Returns (ok, detail)."""
+    from .ownership import find_in
+    pc = payload_calls(a)
+    sinks = [c for c in pc if c.fn == sink]
+    others = [c for c in pc if c.fn != sink and c.fn not in ("core::slice::<impl [T]>::iter_mut", "core::slice::<impl [T]>::iter", "core::iter::IntoIterator::into_iter",
+                                                             "core::iter::Iterator::next", "core::iter::Iterator::for_each")]
+    if others:
+        return False, "calls outside the recognised complete traversals: %s" % sorted({c.fn for c in others})
+    nexts = [c for c in pc if c.fn == "core::iter::Iterator::next"]
+    fes = [c for c in pc if c.fn == "core::iter::Iterator::for_each"]
+    if len(sinks) == 1 and not nexts and not fes:
+        z = sinks[0]
+        recv = z.args[0]
+        if recv[0] == "P" and recv[3] is not None:
+            ok = is_full_view(recv, base, length) and (z.res or "").startswith(sink_slice_res)
+            return ok, "form B: %s on the full N-element view: %s (resolved to %s)" % (sink.split("::")[-1], ok, z.res)
+        held = z.mem.get((recv[1], ())) if recv[0] == "P" else recv
+        ok = _pure_full_iter(held, base, length) and (z.res or "").startswith(sink_iter_res)
+        return ok, "form A: %s called on the unadapted iterator over the full N-element view: %s; resolved to %s" % (sink.split("::")[-1], _pure_full_iter(held, base, length), z.res)
+    if len(fes) == 1 and not nexts and not sinks:
+        f = fes[0]
+        it, cl = f.args[0], f.args[1]
+        if not _pure_full_iter(it, base, length):
+            return False, "form C: for_each receiver is not the unadapted iterator over the full view: %s" % vstr(it)
+        if not (cl[0] == "A" and isinstance(cl[1], tuple) and cl[1][0] == "closure"):
+            return False, "form C: for_each argument is not a closure literal"
+        cbs = [b for b in ctx.db(cfg).bodies if b.get("path") == cl[1][1]]
+        if len(cbs) != 1:
+            return False, "form C: closure body not found"
+        ca = ctx.analysis(cfg, cbs[0]["key"])
+        cs = [c for c in ca.calls if c.fn == sink and c.args and c.args[0][0] == "P" and c.args[0][1] == ("arg", 2) and not c.args[0][2].t]
+        ok = bool(cs) and bool(ca.returns) and all(any(ca.dominates(c.bb, r["bb"]) for c in cs) for r in ca.returns)
+        return ok, "form C: for_each over the unadapted full-view iterator; the closure hands its argument to %s on every path: %s" % (sink.split("::")[-1], ok)
+    if len(nexts) == 1 and not fes:
+        n = nexts[0]
+        recv = n.args[0]
+        held = n.mem.get((recv[1], ())) if recv[0] == "P" else None
+        if not _pure_full_iter(held, base, length):
+            return False, "form D: next() receiver is not the unadapted iterator over the full view: %s" % vstr(held)
+        if not (n.ret[0] == "O" and n.ret[1][0] == "P"):
+            return False, "form D: next() result not modelled"
+        payload = n.ret[1]
+        good = {c.bb for c in sinks if c.args[0] == payload}
+        if len(good) != len(sinks):
+            return False, "form D: %s called on something other than the element just yielded" % sink.split("::")[-1]
+        none_only = bool(a.returns) and all(("variant", n.ret, 0) in r["facts"] for r in a.returns)
+        rets = {r["bb"] for r in a.returns}
+        ok, det = _loop_cover(a, n, good, rets)
+        return ok and none_only, "form D: one next() site on the unadapted full-view iterator; returns only on None: %s; %s" % (none_only, det)
+    return False, "no recognised complete traversal (sink calls=%d, next sites=%d, for_each=%d)" % (len(sinks), len(nexts), len(fes))
+
+
+def _loop_cover(a, n, good, rets):
+    """Every path that starts on a Some edge of next() `n` reaches a block in `good` before it reaches n.bb again or a return."""
+    # the edges of the switch on next()'s result: the sibling edge carries the None fact
+    none_src = {x for (x, s2), fs in a.edge_facts.items() if any(("variant", n.ret, 0) in f for f in fs)}
+    some_starts = [s2 for (x, s2), fs in a.edge_facts.items() if x in none_src and any(("variant", n.ret, 1) in f for f in fs)]
+    if not some_starts:
+        return False, "no Some edge found after next()"
+    work, seen = list(some_starts), set()
+    while work:
+        x = work.pop()
+        if x in seen or x in good:
+            continue
+        seen.add(x)
+        if x == n.bb or x in rets:
+            return False, "a path from the Some edge reaches %s without handing the element to the sink" % ("the next next()" if x == n.bb else "a return")
+        work.extend(a.edges.get(x, []))
+    return True, "every Some edge passes through the sink on the yielded element before the next next()"
